@@ -263,3 +263,7 @@ def strategy(tier):
 
 def n_random(tier):
     return 2400 if tier == "quick" else 60000
+
+
+def files(case):
+    return {k[len("p/q/r/"):]: v for k, v in build(case)["files"].items()}
